@@ -156,7 +156,7 @@ func c01Outcome(w ref.Result, got implRes) string {
 
 func c01Values(full bool) []ref.Value {
 	vs := []ref.Value{ref.Int(0), ref.Int(1), ref.Int(-1), ref.Int(2), ref.Int(7), ref.Int(63), ref.Int(64), ref.Int(1 << 62), ref.Int(math.MaxInt64), ref.Int(math.MinInt64),
-		ref.Float(0), ref.Float(math.Copysign(0, -1)), ref.Float(1.5), ref.Float(1e300), ref.Float(math.NaN()), ref.Float(math.Inf(1)),
+		ref.Float(0), ref.Float(math.Copysign(0, -1)), ref.Float(1.5), ref.Float(1e300), ref.Float(math.NaN()), ref.Float(math.Inf(1)), ref.Float(9223372036854775808.0), ref.Float(-9223372036854775808.0), ref.Float(9007199254740992.0), ref.Int(9007199254740993),
 		ref.Bool(true), ref.Bool(false), ref.Str(""), ref.Str("a"), ref.Str("ab"), ref.Nil,
 		ref.Arr(ref.Int(1), ref.Int(2)), ref.NewMap(ref.Pair{K: ref.Int(1), V: ref.Int(2)})}
 	if full {
